@@ -17,6 +17,19 @@ Theorem C41_prop_of_model : forall i,
 Proof. exact prop_of_model. Qed.
 Print Assumptions C41_prop_of_model.
 
+(* Reload path.  HttpsListener.UpdateSessionTicketKey replaces the listener's Config by Config.Clone()
+   with a new ticket key.  The negotiation outcome is invariant under Clone, hence under any number of
+   reloads: `serve c h` (what the harness observes: outcome on the listener's live Config after
+   c_reloads reloads, and the list of Config fields other than the ticket key that differ from the
+   configured ones) is (negotiate c h, []).  The harness derives the field list by reflection over
+   bfe_tls.Config, so a field that Clone forgets to copy shows up as a non-empty list. *)
+Theorem C41_clone_invariant : forall c h, negotiate (clone c) h = negotiate c h.
+Proof. exact clone_invariant. Qed.
+Print Assumptions C41_clone_invariant.
+Theorem C41_reload_invariant : forall c h, fst (serve c h) = negotiate c h /\ snd (serve c h) = [].
+Proof. exact reload_invariant. Qed.
+Print Assumptions C41_reload_invariant.
+
 (* Every accepted handshake (full or resumed from a ticket or from the session-ID cache) runs at a version
    inside the configured range [MinVersion or SSLv3, MaxVersion or TLS1.2], not above the client's, and
    inside the grade of the rule selected for the connection (A: at least TLS 1.0, A+: TLS 1.2). *)
@@ -111,7 +124,7 @@ Proof. exact nonvacuous_scsv_resumption. Qed.
    wildcard certificate with an ECDSA key selected for "WWW.A.COM." -> the ECDSA suite;
    both corpus inputs are well-formed *)
 Example C41_corpus_cases :
-  wf_C41 corpus_sni_grade_b = true /\ run_C41 corpus_sni_grade_b = VL [VZ 1; VZ 0; VZ 768; VZ 5; VB []; VZ 0; VL []] /\
+  wf_C41 corpus_sni_grade_b = true /\ run_C41 corpus_sni_grade_b = VL [VL [VZ 1; VZ 0; VZ 768; VZ 5; VB []; VZ 0; VL []]; VL []] /\
   wf_C41 corpus_wildcard_cert = true /\
-  run_C41 corpus_wildcard_cert = VL [VZ 1; VZ 0; VZ 771; VZ 49195; VB []; VZ 0; VL []].
+  run_C41 corpus_wildcard_cert = VL [VL [VZ 1; VZ 0; VZ 771; VZ 49195; VB []; VZ 0; VL []]; VL []].
 Proof. exact corpus_cases_ok. Qed.
